@@ -228,9 +228,9 @@ PROPS = {
             {"name": "determ", "n_quick": 4000, "n_thorough": 300000, "compare": False, "min_per_proc": 500},
             {"name": "namer", "n_quick": 5000, "n_thorough": 500000, "compare": True, "min_per_proc": 1000},
         ],
-        "rule": "determ: generated queries of the supported fragment (see C14) and 12 templates with implicit column names, wildcards, USING, random(), each compiled, then compiled again after 0..3 other compilations and 0..4 rounds of direct namer calls in the same process, and once more from a fresh thread: relations compared with ==, rendered text compared; rendered twice; rendered text compiled back (schema names, order and types compared, both generations executed on SQLite and rows compared) and rendered + compiled a second time; namer: sequences of 1..10 namer operations (new_name / new_id / name_from_content over 4 prefixes, Encoder::encode with 4 alphabets, lengths 0..6, boundary and random u64) after namer::reset(), compared with the Lean model; non-trivial = compiled",
+        "rule": "determ: generated queries of the supported fragment (see C14) and 12 templates with implicit column names, wildcards, USING, random(), each compiled, then compiled again after 0..3 other compilations and 0..4 rounds of direct namer calls in the same process, once more from a fresh thread, and from three threads running at the same time (each compiling the other queries of the case around it, in different orders): relations compared with ==, rendered text compared; rendered twice; rendered text compiled back (schema names, order and types compared, both generations executed on SQLite and rows compared) and rendered + compiled a second time; namer: sequences of 1..10 namer operations (new_name / new_id / name_from_content over 4 prefixes, Encoder::encode with 4 alphabets, lengths 0..6, boundary and random u64) after namer::reset(), compared with the Lean model; non-trivial = compiled",
         "trusted_base": COMMON_TRUST + ["tools/tr_namer.py (regular-expression inventory of namer call sites outside #[cfg(test)] modules)", "SQLite 3.40 + harness shims as executor", "std's DefaultHasher (SipHash with fixed keys) is a function of the content: assumed, observed through repeated compilation only"],
-        "assumptions": ["threads: one extra thread per case compiles the same text; data races inside std are out of scope", "the audited counter-based call sites (C16.audited) are not reached from the SQL reader: backed by the determ stream, not proved"],
+        "assumptions": ["threads: up to three concurrent threads per case; which interleavings of the global counter actually occur is up to the OS scheduler", "the audited counter-based call sites (C16.audited) are not reached from the SQL reader: backed by the determ stream, not proved"],
         "technique": "Lean 4 proof over a model of namer.rs / encoder.rs (content-derived names are independent of the counter state and of history; numbers from the counter strictly increase, so a counter-derived name changes on the second request) + generated inventory of /repo's naming call sites with a kernel-checked classification + model/implementation correspondence on namer operation sequences + repeated / interleaved / cross-thread compilation and render-compile fixpoint checks",
         "level_text": "Theorems (Props/C16.lean) for operation sequences of any length and any initial counter state: content_only_history_independent, counter_numbers_increasing, counter_name_changes, encode_length, encode_mod; compile_path_counter_sites is checked by the kernel over the inventory regenerated from /repo on every run. The model is compared with the real namer and encoder. That a whole compilation only uses content-derived names (and ordered containers) is observed by compiling each query repeatedly, interleaved and from another thread, not proved.",
         "level_note": "Trusted: Lean kernel; the inventory script. Modelled, not verified: hashing of node content (DefaultHasher), BTreeMap iteration order, thread-local function tables: these are exercised by the determ stream only.",
